@@ -25,7 +25,7 @@ RULE = ("one run = one of three arms on four replicas (vlevel 0-3); distinct = d
 PROBES = ["arm_history", "arm_corrupt", "arm_assign", "corrupt_accepted_somewhere", "corrupt_rejected_somewhere",
           "invalid_assignment", "valid_assignment", "surfaced_at_write", "surfaced_at_validate", "repaired",
           "repeated_header_tag", "custom_taglike",
-          "header_add", "header_add_multi"]
+          "header_add", "header_add_multi", "custom_record_field"]
 
 ASSIGN = {
     # datatype: (valid python values, invalid python values)
@@ -431,11 +431,18 @@ def posassign(reps, op, version, st):
     """valid / invalid assignment to a positional, non-reference field of a stand-alone line"""
     st.count("op.posassign")
     for lvl, g in enumerate(reps):
-        cands = [l for l in ob.listed_lines(g) if (l.record_type, version) in POSASSIGN and not l.virtual]
+        cands = [l for l in ob.listed_lines(g) if not l.virtual and
+                 ((l.record_type, version) in POSASSIGN or
+                  (isinstance(l, gfapy.line.CustomRecord) and "field1" in l.positional_fieldnames))]
         if not cands:
             return
         src = cands[op["li"] % len(cands)]
-        table = POSASSIGN[(src.record_type, version)]
+        if isinstance(src, gfapy.line.CustomRecord):
+            # the positional fields of a custom record: any text without tabs and line breaks
+            st.count("probe.custom_record_field")
+            table = {"field1": (["abc", "x:y z", "12"], ["not\tvalid", "a\nb"])}
+        else:
+            table = POSASSIGN[(src.record_type, version)]
         field = sorted(table)[op["fi"] % len(table)]
         pool = table[field][0 if op["valid"] else 1]
         x = pyval(pool[op["vi"] % len(pool)])
